@@ -165,29 +165,33 @@ def explore(pid, tier, jobs, only_group=None, verbose=False):
     agg = {g: dict(paths=0, done=0, aborted=0, exceptions=0, decisions=0, counts={}, cex=[],
                    witnesses=[], stub_calls={}, unexplored=0, functions=[], twin=None, samples=[],
                    queries=0, solver_s=0.0, cut=0, abort_reasons={}) for g in groups}
-    outstanding = 0
-    out_by_group = {g: 0 for g in groups}
-    for g in groups:
-        task_q.put((g, []))
-        outstanding += 1
-        out_by_group[g] += 1
+    # tasks wait in a master-side backlog; only a bounded number is in flight, so that the budget can stop
+    # the exploration (an mp.Queue buffers puts in a feeder thread and cannot be drained reliably)
+    import collections
+    backlog = collections.deque((g, []) for g in groups)
+    out_by_group = {g: 1 for g in groups}          # queued + in flight, per group
+    outstanding = len(backlog)
+    inflight = 0
+
+    def feed():
+        nonlocal inflight
+        while backlog and inflight < 3 * jobs:
+            task_q.put(backlog.popleft())
+            inflight += 1
+    feed()
     fatal = None
     t0 = time.time()
     deadline = t0 + (H.BUDGET_S[tier] if hasattr(H, 'BUDGET_S') else (600 if tier == 'quick' else 3600))
     drained = False
     while outstanding:
         if not drained and time.time() > deadline:
-            # budget used up: tasks still queued are not started (counted as cut); running ones finish
+            # budget used up: tasks not yet handed out are not started (counted as cut); running ones finish
             drained = True
-            while True:
-                try:
-                    t = task_q.get_nowait()
-                except queue.Empty:
-                    break
-                if t is not None:
-                    agg[t[0]]['cut'] += 1
-                    outstanding -= 1
-                    out_by_group[t[0]] -= 1
+            while backlog:
+                t = backlog.popleft()
+                agg[t[0]]['cut'] += 1
+                outstanding -= 1
+                out_by_group[t[0]] -= 1
             if not outstanding:
                 break
         try:
@@ -207,7 +211,13 @@ def explore(pid, tier, jobs, only_group=None, verbose=False):
         if 'fatal' in out:
             fatal = out['fatal']
             break
+        if time.time() > deadline + 360:
+            for g_, k_ in out_by_group.items():
+                agg[g_]['cut'] += k_
+                agg[g_]['abandoned'] = agg[g_].get('abandoned', 0) + k_
+            break
         outstanding -= 1
+        inflight -= 1
         out_by_group[out['group']] -= 1
         a = agg[out['group']]
         for k in ('paths', 'done', 'aborted', 'exceptions', 'decisions', 'unexplored', 'queries', 'solver_s'):
@@ -236,9 +246,10 @@ def explore(pid, tier, jobs, only_group=None, verbose=False):
             a['cut'] += len(out['pending'])
         else:
             for p in out['pending']:
-                task_q.put((out['group'], p))
+                backlog.append((out['group'], p))
                 outstanding += 1
                 out_by_group[out['group']] += 1
+            feed()
         if verbose:
             print(f"  [{time.time()-t0:6.1f}s] {out['group']}: paths={a['paths']} outstanding={outstanding}",
                   file=sys.stderr)
